@@ -4,8 +4,8 @@ Translation table (anything else => the lemma is UNDECIDED, never failed):
     X = self.calc_exchangeability_matrix(word_probs, *params)   ->  X := R
     X *= mprobs_matrix                                          ->  X := fun i j => X i j * M i j
     v = X.sum(axis=1)                                           ->  v := fun i => sum_j X i j
-    X -= numpy.diag(v)                                          ->  X := X - Matrix.diagonal v
-    X *= 1.0 / (word_probs * v).sum()                           ->  X := (1 / sum_i w i * v i) . X
+    X -= numpy.diag(v)  /  X += numpy.diag(v)                   ->  X := X -/+ Matrix.diagonal v
+    X *= c / (word_probs * v).sum()  /  X *= c / v.sum()        ->  X := (c / sum_i w i * v i) . X  /  (c / sum_i v i) . X
     return X
 """
 from __future__ import annotations
@@ -26,6 +26,13 @@ FILE = "cogent3/evolve/substitution_model.py"
 
 class Untranslatable(Exception):
     pass
+
+
+def _lit(txt):
+    """numeric literal as a Lean real: integral floats as integers (1.0 -> 1), others as a ratio"""
+    from fractions import Fraction
+    fr = Fraction(txt)
+    return str(fr.numerator) if fr.denominator == 1 else f"({fr.numerator} / {fr.denominator})"
 
 
 def translate(node, name, with_m):
@@ -64,15 +71,22 @@ def translate(node, name, with_m):
                 cur[t] = ln
                 continue
             m = re.fullmatch(r"numpy\.diag\((\w+)\)", rhs)
-            if isinstance(st.op, ast.Sub) and m and m.group(1) in cur:
+            if isinstance(st.op, (ast.Sub, ast.Add)) and m and m.group(1) in cur:
                 ln = fresh("Q")
-                lines.append(f"  let {ln} : Matrix n n ℝ := {cur[t]} - Matrix.diagonal {cur[m.group(1)]}")
+                sign = "-" if isinstance(st.op, ast.Sub) else "+"
+                lines.append(f"  let {ln} : Matrix n n ℝ := {cur[t]} {sign} Matrix.diagonal {cur[m.group(1)]}")
                 cur[t] = ln
                 continue
-            m = re.fullmatch(r"1\.0 / \(word_probs \* (\w+)\)\.sum\(\)", rhs)
-            if isinstance(st.op, ast.Mult) and m and m.group(1) in cur:
+            m = re.fullmatch(r"(\d+(?:\.\d+)?) / \(word_probs \* (\w+)\)\.sum\(\)", rhs)
+            if isinstance(st.op, ast.Mult) and m and m.group(2) in cur:
                 ln = fresh("Q")
-                lines.append(f"  let {ln} : Matrix n n ℝ := (1 / ∑ i, w i * {cur[m.group(1)]} i) • {cur[t]}")
+                lines.append(f"  let {ln} : Matrix n n ℝ := (({_lit(m.group(1))} : ℝ) / ∑ i, w i * {cur[m.group(2)]} i) • {cur[t]}")
+                cur[t] = ln
+                continue
+            m = re.fullmatch(r"(\d+(?:\.\d+)?) / (\w+)\.sum\(\)", rhs)
+            if isinstance(st.op, ast.Mult) and m and m.group(2) in cur:
+                ln = fresh("Q")
+                lines.append(f"  let {ln} : Matrix n n ℝ := (({_lit(m.group(1))} : ℝ) / ∑ i, {cur[m.group(2)]} i) • {cur[t]}")
                 cur[t] = ln
                 continue
             raise Untranslatable(src)
@@ -129,11 +143,35 @@ def run_lean(chk):
             return (status, "lean 4.33.0 + Mathlib", secs / len(THEOREMS), None,
                     "accepted by Lean" if status == "proved" else "; ".join(bad)[:500] or "file did not compile")
         chk.obligation(f"{fn}/lemma.{th}", "lemma", thunk, function=fn, key=f"C05/{fn}/lemma.{th}",
-                       replayer=lambda m: {"failed": False, "description": "algebraic lemma; see the bounded tier for a numeric witness"})
+                       replayer=_numeric_witness)
     chk.discharge(workers=1)
     chk.assume("Lean lemmas are over the reals and over the term translated by the fixed table in contracts/C05_lean.py; "
                "calc_exchangeability_matrix is an arbitrary matrix R (zero diagonal assumed only for the calibration lemma)")
     chk.trust("Lean 4 kernel + Mathlib")
+
+
+def _numeric_witness(model):
+    """a failed algebraic lemma is replayed numerically on real models: row sums, sign, calibration, stationarity"""
+    import numpy
+    from cogent3 import get_model, make_tree
+    tree = make_tree("(a:0.3,b:0.2,c:0.1);")
+    pi = dict(T=.1, C=.2, A=.3, G=.4)
+    for name, rules in (("HKY85", {"kappa": 3.0}), ("GTR", {"A/C": 2.0, "A/G": 0.5}), ("GN", {"A>C": 2.0, "T>A": 0.4})):
+        lf = get_model(name).make_likelihood_function(tree)
+        lf.set_motif_probs(pi)
+        for k, v in rules.items():
+            lf.set_param_rule(k, init=v)
+        Q = numpy.array(lf.get_rate_matrix_for_edge("a").array)
+        w = numpy.array(lf.get_motif_probs().array)
+        rows = abs(Q.sum(axis=1)).max()
+        off = (Q - numpy.diag(numpy.diag(Q))).min()
+        cal = -(w * numpy.diag(Q)).sum()
+        stat = abs(w @ Q).max() if name != "GN" else 0.0
+        if rows > 1e-9 or off < -1e-12 or abs(cal - 1) > 1e-9 or stat > 1e-9:
+            return {"failed": True, "witness": {"model": name, "rules": rules, "motif_probs": pi},
+                    "description": f"{name} {rules} motif probs {pi}: max |row sum| {rows:.3g}, min off-diagonal {off:.3g}, "
+                                   f"expected rate at motif probs {cal:.6g} (want 1), max |pi Q| {stat:.3g}"}
+    return {"failed": False, "description": "HKY85/GTR/GN rate matrices satisfy the clauses numerically"}
 
 
 def _owner(text, errline):
